@@ -66,7 +66,16 @@ def check_swap(ck, inst, std, counters):
         if outer == target:
             verdict = True      # (cannot happen without inlining, but it would be the member itself)
         elif outer in m.functions:
-            body = single_call(m.normal_form(outer))
+            try:
+                body = single_call(m.normal_form(outer))
+            except common.AnalysisBroken as e:
+                if 'invoke' not in str(e):
+                    raise
+                # the call of the member is an `invoke` with a terminate pad: the non-member is
+                # declared non-throwing although the member swap it calls may throw
+                body = None
+                verdict = ('calls the member swap under a terminate pad: it is declared noexcept although `a.swap (b)` may throw '
+                           'for this instantiation')
             counters['normalised'] += 1
             detail = {'non_member': outer, 'member': target, 'body': body and (body[0], [norm.show(x) for x in body[1]])}
             if body is not None:
